@@ -18,10 +18,10 @@ import (
 // C17 — the profiler never trusts an incomplete cached disassembly.
 
 type c17Op struct {
-	Op    string `json:"op"`              // run-ok / run-crash / run-toolfail / run-toolmissing / change-binary
+	Op    string `json:"op"`              // run-ok / run-crash / run-toolfail / run-toolkilled / run-toolmissing / change-binary
 	Class string `json:"class,omitempty"` // where the output stops: zero, first-line, flush-1, flush, flush+1, line, site-before, site-inside, site-after, all-but-one, frac
 	Frac  int    `json:"frac,omitempty"`  // per mille, selects among the candidates of the class
-	Code  int    `json:"code,omitempty"`  // run-toolfail: exit status of the tool
+	Code  int    `json:"code,omitempty"`  // run-toolfail: exit status of the tool; run-toolkilled: signal number
 }
 
 type c17Case struct {
@@ -44,11 +44,14 @@ func drawC17(t *rapid.T) c17Case {
 		switch rapid.IntRange(0, 9).Draw(t, "op") {
 		case 0:
 			op.Op = "run-ok"
-		case 1, 2, 3, 4:
+		case 1, 2, 3:
 			op.Op = "run-crash"
-		case 5, 6, 7:
+		case 4, 5:
 			op.Op = "run-toolfail"
 			op.Code = []int{1, 2, 3, 127, 255}[rapid.IntRange(0, 4).Draw(t, "code")]
+		case 6, 7:
+			op.Op = "run-toolkilled"
+			op.Code = []int{9, 15, 9, 11}[rapid.IntRange(0, 3).Draw(t, "signal")]
 		case 8:
 			op.Op = "run-toolmissing"
 		default:
@@ -233,6 +236,20 @@ func checkC17(raw json.RawMessage) (ev.Result, error) {
 				res.Classes = append(res.Classes, "toolfail-left-cache-file")
 				leftBehind = true
 			}
+		case "run-toolkilled":
+			n := stopAt(text, op.Class, op.Frac)
+			r, err := rig.run(fmt.Sprintf("kill:%d:%d", n, op.Code), false)
+			if err != nil {
+				return res, ev.Inconclusivef("%v", err)
+			}
+			res.Classes = append(res.Classes, "tool-killed-by-signal")
+			if err := verify(desc, r); err != nil {
+				return res, err
+			}
+			if rig.cacheSize() > 0 {
+				res.Classes = append(res.Classes, "toolkilled-left-cache-file")
+				leftBehind = true
+			}
 		case "run-toolmissing":
 			r, err := rig.run("", false)
 			if err != nil {
@@ -281,7 +298,7 @@ func checkC17(raw json.RawMessage) (ev.Result, error) {
 
 func hasFault(ops []c17Op) bool {
 	for _, o := range ops {
-		if o.Op == "run-crash" || o.Op == "run-toolfail" || o.Op == "run-toolmissing" {
+		if o.Op == "run-crash" || o.Op == "run-toolfail" || o.Op == "run-toolmissing" || o.Op == "run-toolkilled" {
 			return true
 		}
 	}
